@@ -29,7 +29,16 @@ def gGameState (engine : Engine) (own : Nat) (extraRules : G Rules) : G (Config 
     let xi ← gExchange engine (infoPacket cfg0 st).length
     let xp ← gExchange engine (encPlayers players).length
     let xr ← gExchange engine (encRules rules).length
-    pure ({ cfg0 with info := xi, players := xp, rules := xr }, st)
+    let base := match xi.transport with
+      | .sourceSplit id _ => id
+      | .goldSplit id _ => id
+      | .single => 7
+    -- the three replies carry three different ids
+    let rebase (x : Exchange) (k : Nat) : Exchange := match x.transport with
+      | .sourceSplit _ sizes => { x with transport := .sourceSplit ((base + k) % 2 ^ 31) sizes }
+      | .goldSplit _ sizes => { x with transport := .goldSplit ((base + k) % 2 ^ 31) sizes }
+      | .single => x
+    pure ({ cfg0 with info := xi, players := rebase xp 1, rules := rebase xr 2 }, st)
 
 def valveTags (cfg : Config) (st : Valve.Spec.State) : String :=
   let nch := fun (x : Exchange) => toString x.challenges.length
